@@ -869,6 +869,10 @@ fn handle(g: &mut Global, req: &Request, t_recv: u64) -> Exchange {
     let mut fault: Option<(usize, Value)> = None;
     for (i, r) in faults.iter().enumerate() {
         if match_rule(r, &ca_name, &kind, ca.attempt, nth, cert_nth, tx, &cert_key) {
+            // rules limited to requests signed for an account this CA (still) knows
+            if r.get("known_account").and_then(|v| v.as_bool()) == Some(true) && jws.as_ref().and_then(|j| j.account).is_none() {
+                continue;
+            }
             let max = r.get("max_fires").and_then(|v| v.as_u64()).unwrap_or(u64::MAX);
             if *fired_snapshot.get(&i).unwrap_or(&0) < max {
                 fault = Some((i, r.clone()));
